@@ -408,6 +408,52 @@ namespace
             });
     }
 
+    // block source whose later blocks lie at lower addresses (any order of addresses is legitimate for a block source)
+    struct descending_blocks
+    {
+        std::size_t bs, off;
+        static char* buffer()
+        {
+            alignas(64) static char b[1 << 16];
+            return b;
+        }
+        explicit descending_blocks(std::size_t block_size) : bs(block_size), off(1 << 16) {}
+        memory_block allocate_block()
+        {
+            if (off < bs)
+                throw std::bad_alloc();
+            off -= bs;
+            return {buffer() + off, bs};
+        }
+        void deallocate_block(memory_block b) noexcept
+        {
+            off += b.size;
+        }
+        std::size_t next_block_size() const noexcept
+        {
+            return bs;
+        }
+    };
+
+    template <class Stack>
+    void stale_marker_body(rng& cr, Stack& st, bool drop)
+    {
+        for (int i = 0, n = int(cr.below(10)); i < n; ++i)
+            st.allocate(cr.range(1, 40), 8);
+        auto m1 = st.top();
+        if (drop)
+            for (int i = 0; i < 30; ++i)
+                st.allocate(100, 8); // crosses into further blocks
+        else
+            st.allocate(cr.range(32, 64), 8);
+        auto m2 = st.top();
+        st.unwind(m1);
+        if (cr.chance(50))
+            st.allocate(8, 8); // still below m2
+        arm_handler();
+        st.unwind(m2); // above the current top
+    }
+
     void bad_stack(const args& a)
     {
         std::string kind = "stack";
@@ -416,28 +462,24 @@ namespace
         for (long c = a.from; c < a.to; ++c)
             run_case(kind, c, [&] {
                 auto r    = case_rng(a.seed, a.group, kind, c);
-                bool drop = c % 2;
+                bool drop = c % 3 != 0;
+                bool desc = c % 3 == 2; // the dropped blocks lie below the current one
                 auto seed = r.next();
-                auto cls  = drop ? "stale-marker-dropped-block" : "stale-marker-same-block";
+                auto cls  = desc ? "stale-marker-dropped-block-lower-address" : drop ? "stale-marker-dropped-block" : "stale-marker-same-block";
                 op("stack class=%s", cls);
                 int o = in_child([&] {
                     rng cr(seed);
                     prefix_handler();
-                    memory_stack<> st(1024);
-                    for (int i = 0, n = int(cr.below(10)); i < n; ++i)
-                        st.allocate(cr.range(1, 40), 8);
-                    auto m1 = st.top();
-                    if (drop)
-                        for (int i = 0; i < 30; ++i)
-                            st.allocate(100, 8); // crosses into further blocks
+                    if (desc)
+                    {
+                        memory_stack<descending_blocks> st(512);
+                        stale_marker_body(cr, st, true);
+                    }
                     else
-                        st.allocate(cr.range(32, 64), 8);
-                    auto m2 = st.top();
-                    st.unwind(m1);
-                    if (cr.chance(50))
-                        st.allocate(8, 8); // still below m2
-                    arm_handler();
-                    st.unwind(m2); // above the current top
+                    {
+                        memory_stack<> st(1024);
+                        stale_marker_body(cr, st, drop);
+                    }
                 });
                 judge(kind, cls, o);
                 flag("bad-call");
